@@ -24,7 +24,7 @@ BUDGET = {
 
 RESERVED = set(keyword.kwlist) | {'self', 'cls', 'super', 'int', 'str', 'float', 'bool', 'list', 'dict', 'tuple', 'len', 'range', 'enumerate', 'Enum', 'Callable', 'property', 'classmethod',
 	'RuntimeError', 'Exception', 'value', 'name', 'items', 'keys', 'values', 'get', 'append', 'insert', 'pop', 'extend', 'clear', 'copy', 'startswith', 'endswith', 'find', '__init__', 'enum', 'collections', 'abc',
-	'print', 'type', 'object', 'isinstance', 'Generic', 'TypeVar', 'typing', 'rfind', 'reverse', 'sort', 'index', 'count', 'remove', 'update', 'upper', 'lower', 'split', 'join', 'replace', 'strip', 'lstrip', 'rstrip', 'format', 'min', 'max', 'abs', 'id', 'iter', 'next', 'hash', 'cast', 'Any', 'Self', 'Union', 'None', 'True', 'False'}
+	'print', 'type', 'object', 'isinstance', 'Generic', 'TypeVar', 'ClassVar', 'StopIteration', 'typing', 'rfind', 'reverse', 'sort', 'index', 'count', 'remove', 'update', 'upper', 'lower', 'split', 'join', 'replace', 'strip', 'lstrip', 'rstrip', 'format', 'min', 'max', 'abs', 'id', 'iter', 'next', 'hash', 'cast', 'Any', 'Self', 'Union', 'None', 'True', 'False'}
 CPP_WORDS = {'auto', 'int', 'bool', 'float', 'double', 'char', 'void', 'class', 'struct', 'public', 'private', 'protected', 'static', 'const', 'this', 'return', 'if', 'else', 'for', 'while', 'break', 'continue', 'try',
 	'catch', 'throw', 'new', 'delete', 'namespace', 'using', 'template', 'typename', 'std', 'string', 'vector', 'map', 'tuple', 'function', 'mutable', 'true', 'false', 'nullptr', 'enum', 'switch', 'case', 'default',
 	'do', 'operator', 'virtual', 'override', 'inline', 'size', 'begin', 'end', 'push_back', 'contains', 'find', 'format', 'runtime_error', 'exception', 'get', 'first', 'second', 'pragma', 'once', 'include', 'tranp',
@@ -97,7 +97,7 @@ def cases(draw, exclude: frozenset = frozenset()):
 	k = rnd.randint(max(1, len(names) // 2), len(names))
 	chosen = rnd.sample(names, min(k, len(pool), len(names)))
 	for old, new in zip(chosen, pool):
-		r[old] = new
+		r[old] = old[:len(old) - len(old.lstrip('_'))] + new.lstrip('_')  # the leading underscores select the C++ accessor on purpose: kept
 	# an enclosing class and its nested class get names in prefix relation (the qualified name Outer::Inner is assembled from both)
 	inner = re.search(r'(?m)^\tclass (I(\d+)):', prog['source'])
 	if inner and rnd.random() < 0.7:
